@@ -21,6 +21,8 @@ ENTRIES = [
     Entry('diffusion-fill-swapped', DP, [('self.Tparameters[1], self.Tparameters[1][0], self.Tparameters[1][-1]) * np.ones(len(z))', 'self.Tparameters[1], self.Tparameters[1][-1], self.Tparameters[1][0]) * np.ones(len(z))')], 'R13.5'),
     Entry('diffusion-ctor-default-after-setter', DP, [('        else:\n            self.Tparameters = None\n            self.Tfunction = None\n\n    def setIsothermalTemperature(self, T: float):\n        \'\'\'\n        Sets isothermal temperature',
                                                       '        else:\n            self.Tparameters = None\n            self.Tfunction = None\n        self.Tparameters = args[0] if args else None\n\n    def setIsothermalTemperature(self, T: float):\n        \'\'\'\n        Sets isothermal temperature')], 'R13.1'),
+    Entry('temperature-only-when-non-isothermal', B, [('            self._currY.temperature = np.array([self.temperatureParameters(t)])', '            if not self.temperatureParameters._isIsothermal:\n                self._currY.temperature = np.array([self.temperatureParameters(t)])')], 'R13.4'),
+    Entry('accumulator-reset-on-partial-update', K, [('                self.growth, _ = self._growthRate(self.pData.copySlice(self.pData.n))', '                if self.numberOfElements == 1:\n                    self.dTemp = 0\n                self.growth, _ = self._growthRate(self.pData.copySlice(self.pData.n))')], 'R13.3'),
     # benign
     Entry('benign-reset-before-rebuild', K, [('            xEqAlpha, xEqBeta = self._createLookupBinary(T)\n            self.dTemp = 0', '            self.dTemp = 0\n            xEqAlpha, xEqBeta = self._createLookupBinary(T)')], kind='benign'),
     Entry('benign-ctor-explicit-default', PP, [('        self._isIsothermal = True\n        self.setTemperatureParameters(*args)', '        self._isIsothermal = True\n        self.Tparameters = None\n        self.setTemperatureParameters(*args)')], kind='benign'),
